@@ -135,12 +135,44 @@ def r4_anyhow(text):
         s = i + m.start()
         o = i + m.end() - 1
         c = _balanced(text, o)
-        out += text[i:s] + 'vt_anyhow()'
+        # explicit format arguments are still evaluated (by reference, as the formatting macros do): a panic or an
+        # arithmetic fault inside them stays an obligation; only the message text is dropped
+        parts = [a.strip() for a in _split_top_str(text[o + 1:c])]
+        args = [re.sub(r'^%s\s*=\s*(?!=)' % IDENT, '', a) for a in parts[1:] if a]
+        if args:
+            out += text[i:s] + '{ let _vt_fmt_args = (%s,); vt_anyhow() }' % ', '.join('&(%s)' % ' '.join(a.split()) for a in args)
+        else:
+            out += text[i:s] + 'vt_anyhow()'
         i = c + 1
         n += 1
     text = out
     text, k = re.subn(r'\banyhow::Result<', 'VtResult<', text)
     return text, n + k
+
+
+def _split_top_str(s, sep=','):
+    """split at top-level separators, ignoring those inside string literals and brackets"""
+    parts, cur, d, k = [], '', 0, 0
+    while k < len(s):
+        ch = s[k]
+        if ch == '"':
+            m = re.match(r'"(?:[^"\\]|\\.|\\\n)*"', s[k:], re.S)
+            if m:
+                cur += m.group(0)
+                k += m.end()
+                continue
+        if ch in '([{':
+            d += 1
+        elif ch in ')]}':
+            d -= 1
+        if ch == sep and d == 0:
+            parts.append(cur)
+            cur = ''
+        else:
+            cur += ch
+        k += 1
+    parts.append(cur)
+    return parts
 
 
 @rule('R10')
@@ -403,16 +435,48 @@ def r16_hoist_arg(text, call, name):
 def r9_float(text, div='vt_fdiv'):
     """integer-to-float casts and the float quotient become calls of trusted helpers so that the integer part of the
     function is verifiable and "the quotient is defined" becomes an obligation:
-       E as f64 / N   -> DIV(vt_f64(E), N)       (DIV = vt_fdiv: requires denominator >= 1;  vt_fdiv_any: no requirement)
-       E as f64       -> vt_f64(E)               (E runs back to the start of the expression on its line / after `{`)
+       E as f64       -> vt_f64(E)               (E = the postfix chain in front of the cast: identifier or parenthesised
+                                                  expression followed by field accesses / method calls)
+       X / Y          -> DIV(X, Y)               (X, Y identifiers or vt_f64(..) calls; DIV = vt_fdiv: requires denominator >= 1)
        1.0            -> vt_f64(1)"""
     n = 0
-    # quotient, possibly with the `/ N` on the next line
-    pat = re.compile(r'(?P<ind>^[ \t]*|\{ )(?P<e>[^\n;{}]*?(?:\n[ \t]*\.[^\n;{}]*)*?) as f64\s*/\s*(?P<n>%s)' % IDENT, re.M)
-    text, k = pat.subn(lambda m: '%s%s(vt_f64(%s), %s)' % (m.group('ind'), div, m.group('e'), m.group('n')), text)
-    n += k
-    pat = re.compile(r'(?P<ind>^[ \t]*|\{ )(?P<e>[^\n;{}]+?) as f64\b', re.M)
-    text, k = pat.subn(lambda m: '%svt_f64(%s)' % (m.group('ind'), m.group('e')), text)
+    # casts: scan back from ` as f64` over a postfix chain
+    pos = 0
+    while True:
+        k = text.find(' as f64', pos)
+        if k < 0:
+            break
+        j = k
+        while j > 0:
+            ch = text[j - 1]
+            if ch == ')' or ch == ']':
+                # jump to the matching opener
+                d = 0
+                q = j - 1
+                while q >= 0:
+                    if text[q] in ')]':
+                        d += 1
+                    elif text[q] in '([':
+                        d -= 1
+                        if d == 0:
+                            break
+                    q -= 1
+                j = q
+            elif ch.isalnum() or ch == '_' or ch == '.':
+                j -= 1
+            elif ch in ' \t\n' and re.match(r'\s*\.', text[j - 1:k]) and text[:j].rstrip()[-1:] not in ';{}=(,':
+                # whitespace inside a chain broken over lines: `x\n    .len()`
+                j -= 1
+            else:
+                break
+        operand = text[j:k]
+        text = text[:j] + 'vt_f64(' + operand + ')' + text[k + len(' as f64'):]
+        pos = j + len('vt_f64(') + len(operand) + 1
+        n += 1
+    # quotients of float operands
+    opnd = r'(?:vt_f64\((?:[^()]|\((?:[^()]|\([^()]*\))*\))*\)|%s)' % IDENT
+    pat = re.compile(r'(%s)\s*/\s*(%s)' % (opnd, opnd))
+    text, k = pat.subn(lambda m: '%s(%s, %s)' % (div, m.group(1), m.group(2)), text)
     n += k
     text, k = re.subn(r'(?<![0-9A-Za-z_.])1\.0(?![0-9A-Za-z_])', 'vt_f64(1)', text)
     n += k
